@@ -97,4 +97,28 @@ func init() {
 				Ret:    RetValErr, RetType: "IssTokenResponse", JoinIf: true, LetIf: true, Rename: ren, ZeroOf: zero},
 		},
 	})
+	// ---- (deep3) the signing path: SignerFromKey, crypto.Sign / SignPayload, and the builder of the published key set,
+	// over structured tokens (Model/IssueC06Key.lean; namespace GenC06K, Generated/IssueC06Key.lean)
+	joseLits := map[string]StructLit{"jose.SigningKey{}": {Lean: "IssKJoseKey", Keep: []string{"Algorithm", "Key"}},
+		"jose.JSONWebKey{}": {Lean: "IssKJWK", Keep: []string{"Key", "KeyID"}}, "jose.SignerOptions{}": {Lean: "IssKOpts", Keep: []string{}}}
+	extraGroups = append(extraGroups, Group{
+		Out:     "IssueC06Key.lean",
+		NS:      "GenC06K",
+		Imports: []string{"OidcModel.Model.IssueC06Key", "OidcModel.Model.RP"},
+		Opens:   []string{"Go", "Hand", "Const"},
+		Funcs: []FuncSpec{
+			{File: "pkg/op/signer.go", Name: "SignerFromKey", Lean: "SignerFromKey", Params: []string{"(key : IssKSigningKey)"},
+				Ret: RetValErr, RetType: "IssKSigner", StructLits: joseLits,
+				Rename: map[string]string{"jose.NewSigner()": "Hand.issKNewSigner", "ErrSignerCreationFailed": "\"ErrSignerCreationFailed\""}},
+			{File: "pkg/crypto/sign.go", Name: "SignPayload", Lean: "SignPayload", Params: []string{"(payload : Payload)", "(signer : IssKSigner)"},
+				Ret: RetValErr, RetType: "Token", NilValue: []string{`""`},
+				Rename: map[string]string{".Sign()": "Hand.issKSign", ".CompactSerialize()": "Hand.issKCompactSerialize"}},
+			{File: "pkg/crypto/sign.go", Name: "Sign", Lean: "Sign", Params: []string{"(cd : IssKCodec)", "(object : Claims)", "(signer : IssKSigner)"},
+				Ret: RetValErr, RetType: "Token", NilValue: []string{`""`},
+				Rename: map[string]string{"json.Marshal()": "Hand.issKMarshal cd"}},
+			{File: "pkg/op/keys.go", Name: "jsonWebKeySet", Lean: "jsonWebKeySet", Params: []string{"(keys : List IssKKey)"},
+				Ret: RetVal, RetType: "IssKWebKeySet", Imperative: true, LoopStyle: "state",
+				Rename: map[string]string{"jose.JSONWebKey{}": "Hand.issKWebKey", "jose.JSONWebKeySet{}": "struct:IssKWebKeySet"}},
+		},
+	})
 }
